@@ -176,6 +176,17 @@ SPECS = {
         ("aniso_2d_embedding_index", LAWS, "        idx = np.array([0, 1, 5])\n        if dim == 2:", "        idx = np.array([0, 1, 3])\n        if dim == 2:"),
         ("pmat_2d_B_entry", MUT, "        B = np.array([[p11 * p12, p21 * p22]])", "        B = np.array([[p11 * p12, p21 * p12]])"),
     ],
+    "C12": [
+        ("align_pads_leading", LINALG, "                op[(slice(None), slice(None)) + (None,) * (nt - rank)]", "                op[(slice(None), slice(None)) + (None,) * max(nt - rank - 1, 0)]"),
+        ("matmul_12_subscript", LINALG, '            return FeArray.asfearray(np.einsum("...i,...ij->...j", self, other))', '            return FeArray.asfearray(np.einsum("...i,...ji->...j", self, other))'),
+        ("ddot_order", LINALG, "        end = (idx1 + idx2).replace(idx1[-1], \"\").replace(idx1[-2], \"\")\n        return f\"...{idx1},...{idx2}->...{end}\"", "        end = (idx1 + idx2).replace(idx1[-1], \"\").replace(idx1[-2], \"\")\n        return f\"...{idx1},...{idx2[1] + idx2[0] + idx2[2:]}->...{end}\""),
+        ("det3_sign", LINALG, "            - a12 * ((a21 * a33) - (a31 * a23))", "            + a12 * ((a21 * a33) - (a31 * a23))"),
+        ("inv3_adj_entry", LINALG, "        adj[..., 1, 2] = -det12", "        adj[..., 1, 2] = det12"),
+        ("T_rank3_axes", LINALG, "            axes = tuple(range(2)) + tuple(range(n - 1, 1, -1))", "            axes = tuple(range(2)) + tuple(range(2, n - 2)) + (n - 1, n - 2)"),
+        ("keeps_fe_axes_negative", LINALG, "    return all(a >= 2 if a >= 0 else a >= 2 - ndim for a in axes)", "    return all(a >= 2 if a >= 0 else a >= 1 - ndim for a in axes)"),
+        ("tensorprod_sym", LINALG, '            p2 = np.einsum("...il,...jk->...ijkl", A, B)', '            p2 = np.einsum("...il,...kj->...ijkl", A, B)'),
+        ("fast_path_ignores_subclass", LINALG, "            return res.view(FeArray)\n        feShape = _FeShape(inputs)", "            return res\n        feShape = _FeShape(inputs)"),
+    ],
 }
 
 
